@@ -2,11 +2,14 @@
 """Markdown table of the sensitivity results (tools/mutants.py --json ...)."""
 import json, sys
 rows = json.load(open(sys.argv[1]))
-print("| change (tools/mutant_catalogue.py id) | property | expected | check exit | caught by (violation class) |")
-print("|---|---|---|---|---|")
+print("| change (tools/mutant_catalogue.py id) | property | repository's suite | expected | check exit | caught by (violation class) |")
+print("|---|---|---|---|---|---|")
 for r in rows:
     cls = r["classes"][0].split(" machine=")[0].replace("class=", "") if r["classes"] else ""
-    print("| %s | %s | %s | %d | %s |" % (r["id"], r["prop"], "violation" if r["expect"] == 1 else "quiet",
-                                         r["exit"], cls if r["expect"] == 1 else "-"))
+    tests = {True: "passes", False: "fails", None: "not run"}[r.get("tests_pass")]
+    print("| %s | %s | %s | %s | %d | %s |" % (r["id"], r["prop"], tests, "violation" if r["expect"] == 1 else "quiet",
+                                              r["exit"], cls if r["expect"] == 1 else "-"))
 ok = sum(1 for r in rows if r["ok"])
-print("\n%d of %d behave as expected." % (ok, len(rows)))
+surv = sum(1 for r in rows if r.get("tests_pass"))
+print("\n%d of %d behave as expected; %d of them also pass the repository's own test suite "
+      "(the others are caught by it as well)." % (ok, len(rows), surv))
